@@ -4,12 +4,26 @@ run the property's check, expect exit 1 with a VIOLATION line, revert. Edits are
 listed in /verif/sensitivity/mutants.json (own edits) or patch files under /verif/seeded/<id>/patch.diff
 (edits written by independent sub-agents). /repo is always restored with `git checkout -- .`.
 
-usage: sensitivity.py [--tier quick|thorough] [--only NAME[,NAME..]] [--seeded]
+usage: sensitivity.py [--sandbox DIR] [--tier quick|thorough] [--only NAME[,NAME..]] [--seeded]
+(--sandbox works on private copies of /repo and /verif under DIR, leaving /repo untouched)
 """
 import json, subprocess, sys, os, time, glob
 
 REPO = "/repo"
 VERIF = "/verif"
+
+
+def use_sandbox(d):
+    """Work on private copies of /repo and /verif under `d` (so that /repo itself is never touched and
+    other runs against /repo are not disturbed). The copy of the simulator depends on the copy of the repo."""
+    global REPO, VERIF
+    os.makedirs(d, exist_ok=True)
+    sh(f"rsync -a --delete --exclude target /repo/ {d}/repo/")
+    sh(f"rsync -a --delete --exclude sim/target --exclude run --exclude replays --exclude .git /verif/ {d}/verif/")
+    cargo = open(f"{d}/verif/sim/Cargo.toml").read().replace('path = "/repo"', f'path = "{d}/repo"')
+    open(f"{d}/verif/sim/Cargo.toml", "w").write(cargo)
+    REPO = f"{d}/repo"
+    VERIF = f"{d}/verif"
 
 
 def sh(cmd, **kw):
@@ -48,17 +62,19 @@ def main():
             only = set(args.pop(0).split(","))
         elif a == "--seeded":
             seeded = True
+        elif a == "--sandbox":
+            use_sandbox(args.pop(0))
     if not clean():
         print("refusing to run: /repo has uncommitted changes")
         return 2
     results = []
     if seeded:
         items = []
-        for meta in sorted(glob.glob(f"{VERIF}/seeded/*/meta.json")):
+        for meta in sorted(glob.glob("/verif/seeded/*/meta.json")):
             m = json.load(open(meta))
             items.append({"name": os.path.basename(os.path.dirname(meta)), "property": m["property"], "patch": os.path.join(os.path.dirname(meta), "patch.diff"), "also": m.get("also_checked_by", [])})
     else:
-        items = json.load(open(f"{VERIF}/sensitivity/mutants.json"))
+        items = json.load(open("/verif/sensitivity/mutants.json"))
     for it in items:
         name = it["name"]
         if only and name not in only:
@@ -92,7 +108,7 @@ def main():
                 results.append((name, prop, status, sorted(set(clauses)), dt))
         finally:
             revert()
-    out = f"{VERIF}/sensitivity/results-{'seeded' if seeded else 'own'}-{tier}.json"
+    out = f"/verif/sensitivity/results-{'seeded' if seeded else 'own'}-{tier}.json"
     # merge into the existing table (a partial run with --only must not drop the other rows)
     table = {}
     if os.path.exists(out):
